@@ -15,7 +15,7 @@ actors on a virtual clock against the model's `step` (tools/props/c12.py), and t
 constant regenerated from actor/pid.go (`touchInterval_tie`).
 -/
 import GoaktVerif.Gen.C12
-import GoaktVerif.Lemmas.C12
+import GoaktVerif.Lemmas.C12Top
 import GoaktVerif.Lemmas.C12Once
 import GoaktVerif.Lemmas.C12Count
 import GoaktVerif.Spec.C12
@@ -105,26 +105,77 @@ theorem C12_guards (cfg : List (Strat × Bool)) (ops : List Op) :
 
 /-- the manager's timer path attempts a passivation only at or after the entry's deadline -/
 theorem C12_decision_after_deadline (cfg : List (Strat × Bool)) (ops : List Op) :
-    ∀ a g now deadline T latest ep ar cur,
-      Ev.decide a g now deadline T latest ep ar cur ∈ (run (init cfg) ops).log → deadline ≤ now := by
-  intro a g now deadline T latest ep ar cur h
+    ∀ a g now deadline T latest ep ar cur isT,
+      Ev.decide a g now deadline T latest ep ar cur isT ∈ (run (init cfg) ops).log → deadline ≤ now := by
+  intro a g now deadline T latest ep ar cur isT h
+  have := log_sound cfg ops _ h
+  simp only [evOK, Bool.and_eq_true, decide_eq_true_eq] at this
+  exact this.1
+
+/-- THE TIME CLAUSE at the decision instant, for every configuration and EVERY op sequence (raw ops,
+    any operations inside the unlock windows, every iteration of `trigger`'s loop): whenever the manager
+    decides to passivate on the current, unpaused, time-based entry of an actor that has handled a
+    message, that message is older than `T − touchInterval`:  `now ≥ lastActivity + T − 100ms`.
+    (Invariant `FInv`, Lemmas/C12Fresh.lean: heap array and index fields in sync, a paused entry is off
+    the heap, `lastTouch ≤ latest ≤ now`, and every on-heap entry's deadline is ≥ lastTouch + T and
+    > latest + T − touchIv — through container/heap, Register/Pause/Resume/Touch and the coalescing CAS.) -/
+theorem C12_time_decision (cfg : List (Strat × Bool)) (ops : List Op) :
+    ∀ a g now deadline T l ar,
+      Ev.decide a g now deadline T (some l) false ar true true ∈ (run (init cfg) ops).log →
+      timeOK touchIv T now (some l) = true := by
+  intro a g now deadline T l ar h
+  have := log_sound cfg ops _ h
+  simp only [evOK, Bool.and_eq_true, decide_eq_true_eq, Bool.not_false, Bool.and_self, Bool.not_true, Bool.false_or] at this
+  simp only [timeOK, decide_eq_true_eq]
+  omega
+
+/-- `baseline + maxMessages` fits int64 -/
+def NoOverflow (b m : Int) : Prop := -9223372036854775808 ≤ b + m ∧ b + m < 9223372036854775808
+
+theorem wrap64_id (x : Int) (h : -9223372036854775808 ≤ x ∧ x < 9223372036854775808) : wrap64 x = x := by
+  unfold wrap64
+  omega
+
+/-- the message-count trigger is raised only at or above the int64 sum `baseline + maxMessages` … -/
+theorem C12_count_threshold_wrapped (cfg : List (Strat × Bool)) (ops : List Op) :
+    ∀ a g p b m, Ev.crossed a g p b m ∈ (run (init cfg) ops).log → wrap64 (b + m) ≤ p := by
+  intro a g p b m h
   simpa [evOK] using log_sound cfg ops _ h
 
-/-- the message-count trigger is raised only at or above `baseline + maxMessages` -/
+/-- … which is the true threshold whenever the sum does not overflow -/
 theorem C12_count_threshold (cfg : List (Strat × Bool)) (ops : List Op) :
-    ∀ a g p b m, Ev.crossed a g p b m ∈ (run (init cfg) ops).log → countOK p b m = true := by
-  intro a g p b m h
-  simpa [evOK, countOK] using log_sound cfg ops _ h
+    ∀ a g p b m, Ev.crossed a g p b m ∈ (run (init cfg) ops).log → NoOverflow b m → countOK p b m = true := by
+  intro a g p b m h hno
+  have := C12_count_threshold_wrapped cfg ops a g p b m h
+  rw [wrap64_id _ hno] at this
+  simpa [countOK] using this
 
-/-- the count clause of `C12_full` holds for ALL op sequences: every passivation attempt of the
-    message-count path goes back to a MessageProcessed call of that very entry object that found
-    `processed ≥ baseline + maxMessages` -/
+/-- the count clause for ALL op sequences: every passivation attempt of the message-count path goes
+    back to a MessageProcessed call of that very entry object that found `processed ≥ baseline +
+    maxMessages` — in int64; the true inequality holds unless `baseline + maxMessages` overflows -/
 theorem C12_count (cfg : List (Strat × Bool)) (ops : List Op) :
     ∀ a g, Ev.countFire a g ∈ (run (init cfg) ops).log →
-      ∃ a' p b m, Ev.crossed a' g p b m ∈ (run (init cfg) ops).log ∧ countOK p b m = true := by
+      ∃ a' p b m, Ev.crossed a' g p b m ∈ (run (init cfg) ops).log ∧ (NoOverflow b m → countOK p b m = true) := by
   intro a g h
   obtain ⟨a', p, b, m, hm⟩ := (cinv_reachable cfg ops).fire a g h
   exact ⟨a', p, b, m, hm, C12_count_threshold cfg ops a' g p b m hm⟩
+
+/-- finding C12-F4: `threshold := entry.baseline + int64(entry.maxMessages)` wraps for a huge
+    MaxMessages: with N = MaxInt64 the very first processed message (PostStart) crosses the "threshold"
+    and the actor is passivated after 0 of its 9223372036854775807 messages -/
+def witnessOverflow : List Op := [.simple (.deliver 0), .drain [] []]
+
+theorem witnessOverflow_event :
+    Ev.crossed 0 0 1 1 9223372036854775807 ∈ (run (init [(.count 9223372036854775807, false)]) witnessOverflow).log
+    ∧ Ev.countFire 0 0 ∈ (run (init [(.count 9223372036854775807, false)]) witnessOverflow).log
+    ∧ ((run (init [(.count 9223372036854775807, false)]) witnessOverflow).actors 0).running = false := by decide
+
+theorem C12_count_refuted : ¬ ∀ cfg ops, ApiRun ops → ∀ a g p b m,
+    Ev.crossed a g p b m ∈ (run (init cfg) ops).log → countOK p b m = true := by
+  intro h
+  have := h [(.count 9223372036854775807, false)] witnessOverflow (by unfold ApiRun; decide) 0 0 1 1 9223372036854775807
+    witnessOverflow_event.1
+  exact absurd this (by decide)
 
 /-! ### PostStop exactly once -/
 
@@ -165,24 +216,31 @@ theorem C12_stopped (cfg : List (Strat × Bool)) (ops : List Op) :
 
 /-- What survives of `C12_full`, for every configuration and EVERY op sequence (runtime-level or raw,
     any operations inside the unlock windows): the guard clause, the count clause, "passivated ⇒ stopped",
-    the decision-instant form of the time clause, and the once clause.  (Excluded: only the literal time
-    clause — a message handled inside the unlock window, C12-F2.) -/
+    the time clause AT THE DECISION INSTANT (C12_time_decision), and the once clause.  (Excluded: the literal time
+    clause — a message handled inside the unlock window, C12-F2 — and the count threshold when
+    `baseline + maxMessages` overflows int64, C12-F4.) -/
 theorem C12_partial (cfg : List (Strat × Bool)) (ops : List Op) :
     (∀ a src ll ss sk st su pf rn now latest pr,
         Ev.tried a src true ll ss sk st su pf rn now latest pr ∈ (run (init cfg) ops).log →
         guardsOK ll pf su st = true ∧
         ((run (init cfg) ops).actors a).running = false ∧ 1 ≤ ((run (init cfg) ops).actors a).postStops) ∧
     (∀ a g, Ev.countFire a g ∈ (run (init cfg) ops).log →
-        ∃ a' p b m, Ev.crossed a' g p b m ∈ (run (init cfg) ops).log ∧ countOK p b m = true) ∧
-    (∀ a g now deadline T latest ep ar cur,
-        Ev.decide a g now deadline T latest ep ar cur ∈ (run (init cfg) ops).log → deadline ≤ now) ∧
+        ∃ a' p b m, Ev.crossed a' g p b m ∈ (run (init cfg) ops).log ∧ (NoOverflow b m → countOK p b m = true)) ∧
+    (∀ a g now deadline T l ar,
+        Ev.decide a g now deadline T (some l) false ar true true ∈ (run (init cfg) ops).log →
+        deadline ≤ now ∧ timeOK touchIv T now (some l) = true) ∧
     (∀ a, onceOK ((run (init cfg) ops).actors a).postStops = true) :=
   ⟨fun a src ll ss sk st su pf rn now latest pr h =>
       ⟨(C12_guards cfg ops a src ll ss sk st su pf rn now latest pr h).1,
        C12_stopped cfg ops a src ll ss sk st su pf rn now latest pr h⟩,
-   C12_count cfg ops, C12_decision_after_deadline cfg ops, C12_once cfg ops⟩
+   C12_count cfg ops,
+   fun a g now deadline T l ar h => ⟨C12_decision_after_deadline cfg ops _ _ _ _ _ _ _ _ _ _ h, C12_time_decision cfg ops a g now deadline T l ar h⟩,
+   C12_once cfg ops⟩
 
 /-! ### non-vacuity: runs in which these events occur -/
+
+example : Ev.decide 0 0 1100 1100 1000 (some 100) false true true true
+    ∈ (run (init [(.time 1000, false)]) [.adv 100, .simple (.deliver 0), .adv 1000, .tick [] []]).log := by decide
 
 example : Ev.countFire 0 0 ∈ (run (init [(.count 1, false)])
     [.simple (.deliver 0), .simple (.deliver 0), .drain [] []]).log := by decide
@@ -194,7 +252,7 @@ example : Ev.tried 0 .timer true false false false false false false true 1000 n
 example : Ev.crossed 0 0 3 1 2 ∈ (run (init [(.count 2, false)])
     [.simple (.deliver 0), .simple (.deliver 0), .simple (.deliver 0)]).log := by decide
 
-example : Ev.decide 0 0 1000 1000 1000 none false true true
+example : Ev.decide 0 0 1000 1000 1000 none false true true true
     ∈ (run (init [(.time 1000, false)]) [.adv 1000, .tick [] []]).log := by decide
 
 end GoaktVerif.C12
